@@ -26,7 +26,7 @@ FUNCTIONS = ["ioflo.base.framing.Framer.restartTimer/updateTimer/updateElapsed/r
 ASSUMPTIONS = [
     "exact-time regime: store time, tick period, timeout are integers (time unit arbitrary); IEEE rounding of decimal periods (0.1 ...) is outside the claim",
     "store stamp assigned directly (store.stamp = k*P); framer driven through its real generator with START then RUN",
-    "symbolic: P in [1,4], T in [0,10], N in [0,4], x per tick in [0,1]; literal verbs `timeout T` / `repeat N` on the grid T in {0,1,2,3,5}, N in {0,1,2,3}",
+    "symbolic: T in [0,8], N in [0,4], x per tick in [0,1], P in [1,4] (one shard per P for the indirect goals); literal verbs `timeout T` / `repeat N` on the grid T in {0,1,2,3,5}, N in {0,1,2,3}",
     "program: top > a,b,c ; a: go a if x >= 1 ; a -> b on elapsed >= T ; b -> c on recurred >= N ; c -> a if x >= 1",
 ]
 
@@ -46,14 +46,14 @@ def script(tlit, nlit):
     ]) + "\n"
 
 
-def h(sym, ticks, tlit, nlit):
+def h(sym, ticks, tlit, nlit, Pfix=None):
     text = script(tlit, nlit)
     with flogen.notrace(sym):
         house = flogen.build_text(text)[0]
     store = house.store
     m = house.framers[0]
-    P = sym.int("P", 1, 4)
-    T = tlit if tlit is not None else sym.int("T", 0, 10)
+    P = Pfix if Pfix is not None else sym.int("P", 1, 4)
+    T = tlit if tlit is not None else sym.int("T", 0, 8)
     N = nlit if nlit is not None else sym.int("N", 0, 4)
     xs = store.create("x")
     if tlit is None:
@@ -120,9 +120,10 @@ def h(sym, ticks, tlit, nlit):
 def obligations(tier):
     out = []
     ticks = 4 if tier == "quick" else 6
-    out.append(Ob("clocks/indirect-goals", h, dict(ticks=ticks, tlit=None, nlit=None), budget=600 if tier == "quick" else 1800,
-                  covers=["forced-reentry", "timeout-fired", "timeout-pending", "repeat-fired", "repeat-pending"],
-                  bounds=dict(ticks=ticks, P="[1,4]", T="[0,10]", N="[0,4]")))
+    for Pfix in (1, 2, 3, 4):
+        out.append(Ob("clocks/indirect-goals/P%d" % Pfix, h, dict(ticks=ticks, tlit=None, nlit=None, Pfix=Pfix), budget=900 if tier == "quick" else 2400,
+                      covers=["forced-reentry", "timeout-fired", "timeout-pending", "repeat-fired", "repeat-pending"],
+                      bounds=dict(ticks=ticks, P=Pfix, T="[0,8]", N="[0,4]")))
     tg = [0, 2, 3] if tier == "quick" else [0, 1, 2, 3, 5]
     ng = [0, 2] if tier == "quick" else [0, 1, 2, 3]
     for t in tg:
